@@ -184,7 +184,10 @@ func rightTrimmed(p *Program, v ssa.Value, depth int, seen map[ssa.Value]bool) (
 	seen[v] = true
 	switch x := v.(type) {
 	case *ssa.Phi:
-		for _, e := range x.Edges {
+		for k, e := range x.Edges {
+			if k < len(x.Block().Preds) && edgeSwitchOff(x.Block().Preds[k], x.Block()) {
+				continue // this value arrives only under the non-default strategy
+			}
 			if ok, why := rightTrimmed(p, e, depth, seen); !ok {
 				return false, why
 			}
@@ -239,6 +242,23 @@ func rightTrimmed(p *Program, v ssa.Value, depth int, seen map[ssa.Value]bool) (
 		}
 	}
 	return false, operandDesc(v) + " still carries the trailing slash"
+}
+
+// edgeSwitchOff: control reaches `to` from `from` only with the strategy switch off - a fact of `from`, or the
+// edge itself is the false edge of a test of the switch.
+func edgeSwitchOff(from, to *ssa.BasicBlock) bool {
+	for f := range factsAt(from.Parent())[from] {
+		if is, pol := strategyCond(f.Cond); is && pol != f.Pol {
+			return true
+		}
+	}
+	if iff, ok := from.Instrs[len(from.Instrs)-1].(*ssa.If); ok && len(from.Succs) == 2 && from.Succs[0] != from.Succs[1] {
+		if is, pol := strategyCond(iff.Cond); is {
+			taken := from.Succs[0] == to // the condition is true on this edge
+			return taken != pol
+		}
+	}
+	return false
 }
 
 // strategyCond: cond is a load of the strategy switch, possibly negated.
@@ -630,5 +650,51 @@ func ruleC14e(c *Ctx) {
 	}
 	if n == 0 {
 		c.triv("-", "the untrimmed request path meets no predicate and is not bound", "-", "it is only trimmed, matched by a path expression, logged or passed on")
+	}
+}
+
+// ---------------------------------------------------------------------------
+// C04.h: what is bound comes from the pieces the path was cut into. A value stored in a parameter map on the request
+// path is an element of the token slice (or joined from elements), or a group of a path expression's match - never a
+// piece the binder finds again in the URL path by searching or slicing the path string itself: strings.Index finds
+// the first place the text occurs, not the position of the segment (`/files/{p:*}` with /files/files/readme.txt binds
+// files/files/readme.txt), and an offset computed from the template is right only as long as nothing was trimmed.
+func ruleBoundFromTokens(c *Ctx) {
+	p := c.P
+	roles := p.Roles()
+	up := urlPathParams(p, false)
+	n := 0
+	for _, fn := range p.SrcFunc {
+		if !p.inModule(fn) || fn.Blocks == nil || !roles.RequestPath[fn] {
+			continue
+		}
+		name := p.fname(fn)
+		eachInstr(fn, func(i ssa.Instruction) {
+			mu, ok := i.(*ssa.MapUpdate)
+			if !ok || !isStringType(mu.Value.Type()) {
+				return
+			}
+			mt, ok := mu.Map.Type().Underlying().(*types.Map)
+			if !ok || !isStringType(mt.Key()) || !isStringType(mt.Elem()) {
+				return
+			}
+			// only maps that are (or become) path parameters: built in a function that takes the URL path
+			takesPath := false
+			for _, prm := range fn.Params {
+				if up.param[prm] {
+					takesPath = true
+				}
+			}
+			if !takesPath {
+				return
+			}
+			n++
+			c.check(!up.derives(p, mu.Value, map[ssa.Value]bool{}), name, "bound value comes from the tokens or from a match group", p.ipos(mu),
+				"not a piece of the URL path string found by slicing or searching it",
+				"the value bound here is cut out of the URL path string itself (sliced, searched or trimmed), not taken from the tokens the router matched or from a group of the path expression: position and extent are found again by text search or arithmetic and differ from the matched segment for some URLs")
+		})
+	}
+	if n == 0 {
+		c.note("-", "no parameter map is filled in a function that takes the URL path", "-", "nothing to decide")
 	}
 }
